@@ -195,7 +195,8 @@ MAX_HANGS = 12
 
 
 def with_deadline(seconds, fn, *a, **kw):
-    """Run fn under a wall-clock alarm; pure-Python non-termination surfaces as Deadline.
+    """Run fn under a CPU-time alarm (ITIMER_PROF: the time this process actually computes, so a loaded machine
+    cannot turn a slow call into a false "non-termination"); pure-Python non-termination surfaces as Deadline.
     After MAX_HANGS hangs in one run further calls are not attempted (each would cost the full
     deadline): they are reported as Deadline immediately -- the run is failing already."""
     import signal
@@ -204,11 +205,11 @@ def with_deadline(seconds, fn, *a, **kw):
 
     def _alarm(signum, frame):
         HANGS[0] += 1
-        raise Deadline(f"no result after {seconds}s")
-    old = signal.signal(signal.SIGALRM, _alarm)
-    signal.setitimer(signal.ITIMER_REAL, seconds, 1.0)
+        raise Deadline(f"no result after {seconds}s of CPU time")
+    old = signal.signal(signal.SIGPROF, _alarm)
+    signal.setitimer(signal.ITIMER_PROF, seconds, 1.0)
     try:
         return fn(*a, **kw)
     finally:
-        signal.setitimer(signal.ITIMER_REAL, 0)
-        signal.signal(signal.SIGALRM, old)
+        signal.setitimer(signal.ITIMER_PROF, 0)
+        signal.signal(signal.SIGPROF, old)
